@@ -256,6 +256,58 @@ def anchor_hits():
     return dict(_anchor_hits)
 
 
+def resolve_anchors(anchors_fn):
+    """the functions an anchors() names, and the expressions among them that no longer exist in the tree under test
+    (a private helper renamed, inlined or removed by a refactoring): those are recorded, not demanded"""
+    try:
+        return list(anchors_fn()), []
+    except (AttributeError, ImportError):
+        pass
+    import ast
+    import inspect
+    import textwrap
+    fn = ast.parse(textwrap.dedent(inspect.getsource(anchors_fn))).body[0]
+    ns = dict(anchors_fn.__globals__)
+    found, missing = [], []
+    for st in fn.body:
+        if isinstance(st, (ast.Import, ast.ImportFrom)):
+            try:
+                exec(compile(ast.Module([st], []), "<anchors>", "exec"), ns)
+            except (ImportError, AttributeError):
+                missing.append(ast.unparse(st))
+        elif isinstance(st, ast.Return) and isinstance(st.value, ast.List):
+            for el in st.value.elts:
+                try:
+                    found.append(eval(compile(ast.Expression(el), "<anchors>", "eval"), ns))
+                except (AttributeError, NameError):
+                    missing.append(ast.unparse(el))
+    return found, missing
+
+
+def internal_anchor(f):
+    """True for an anchored function a maintainer may rename, inline or leave unused without touching the public API: a
+    name starting with an underscore, a module-level helper, or a method of a class that its package does not export.
+    Such an anchor is reported when it is never entered but does not make the run inconclusive."""
+    import importlib
+    code = _code_of(f)
+    parts = code.co_qualname.split(".")
+    if parts[-1].startswith("_") and not parts[-1].startswith("__"):
+        return True
+    if len(parts) < 2:
+        return True
+    mod = getattr(f, "__module__", None) or getattr(getattr(f, "__func__", None), "__module__", "") or ""
+    pkg = ".".join(mod.split(".")[:2])
+    try:
+        return not hasattr(importlib.import_module(pkg), parts[0])
+    except ImportError:
+        return True
+
+
+def existing(owner, *names):
+    """the attributes of `owner` among `names` that exist (private helpers may be gone after a refactoring)"""
+    return [getattr(owner, n) for n in names if hasattr(owner, n)]
+
+
 def budget_funcs(funcs):
     """enable LINE counting on these functions (only counted inside step_budget)"""
     _ensure_tool()
